@@ -55,11 +55,8 @@ void shape_dir_reader(const void *o, FILE *f)
 {
 	const sqfs_dir_reader_t *a = o;
 	nodeset_t na = { 0 };
-	const void *file, *cmp;
 
 	ns_walk(&na, a->dcache.root, 0);
-	meta_reader_refs(a->meta_dir, &file, &cmp);
-	fprintf(f, "rc=%zu nodes=%zu file=%zu cmp=%zu", a->base.refcount, na.n,
-		((const sqfs_object_t *)file)->refcount, ((const sqfs_object_t *)cmp)->refcount);
+	fprintf(f, "rc=%zu nodes=%zu", a->base.refcount, na.n);
 	free(na.v);
 }
